@@ -29,6 +29,7 @@ def run(ctx: Ctx) -> None:
     from ..rules import memo as _memo
     _memo.rule_memo_sound(ctx, ['graphiq/noise/noise_models.py', 'graphiq/backends/compiler_base.py'])
     _memo.rule_falsy_zero(ctx, ['graphiq/noise/noise_models.py', 'graphiq/backends/compiler_base.py'])
+    _memo.rule_arg_names(ctx, ['graphiq/noise/noise_models.py', 'graphiq/backends/compiler_base.py'])
     repo = ctx.repo
     effects.rule_backend_cover(ctx)
     effects.rule_noise_off(ctx)
